@@ -302,6 +302,149 @@ def judge_missed(c, out):
 
 
 # ---------------------------------------------------------------------------------------------------------
+# _dispatch_timer_config_create / _dispatch_after (src/source.c), white-box harness c11_cfg.c
+
+FOREVER = U64 - 1
+WALLNOW = U64 - 2
+MONONOW = 1 << 63
+M62 = (1 << 62) - 1
+
+
+def enc_time(clock, v):
+    return v % U64 if clock == 0 else (v | MONONOW) % U64 if clock == 1 else (-v) % U64
+
+
+def py_decode(when, wall_now):
+    """_dispatch_time_to_clock_and_value in Python integers (property side)"""
+    if when >= (1 << 63):
+        if when & (1 << 62):
+            clock, v = 2, (wall_now if when == WALLNOW else (-when) % U64)
+        else:
+            clock, v = 1, when & ((1 << 63) - 1)
+    else:
+        clock, v = 0, when
+    return clock, (U64 - 1 if v > M62 else v)
+
+
+def gen_cfg_cases(rng, n):
+    import time as _t
+    nows = [_t.clock_gettime_ns(_t.CLOCK_MONOTONIC), _t.clock_gettime_ns(_t.CLOCK_BOOTTIME), _t.clock_gettime_ns(_t.CLOCK_REALTIME)]
+    G, H = [], []
+    def a_time():
+        k = rng.below(12)
+        clock = rng.below(3)
+        if k == 0:
+            return rng.choice([0, MONONOW, WALLNOW, FOREVER])
+        if k == 1:
+            return enc_time(clock, rng.choice([1, 2, 3, M62 - 1, M62, M62 + 1, (1 << 62) + 5, I63 - 1, I63]))
+        if k == 2:
+            return rng.range(0, U64 - 1)
+        d = rng.choice([1, 1000, 10**6, 9 * 10**6, 10**7, 10**7 + 11, 5 * 10**8, 10**9, 599 * 10**9, 600 * 10**9, 601 * 10**9, 10**13,
+                        rng.range(1, 10**12), -rng.range(1, 10**9), -1])
+        return enc_time(clock, max(1, nows[clock] + d))
+    for _ in range(n):
+        itv = rng.choice([0, 1, 2, 3, 1000, 10**9, I63 - 1, I63, I63 + 1, U64 - 1, rng.range(0, U64 - 1), rng.range(1, 1 << 40)])
+        h = itv // 2 if itv < I63 else rng.range(0, 1000)
+        lee = rng.choice([0, 1, h, h + 1, max(h - 1, 0), I63, I63 + 1, U64 - 1, rng.range(0, U64 - 1), rng.range(0, 1 << 30)])
+        G.append((a_time(), itv, lee, rng.choice([0, 4, 8])))
+        H.append((a_time(),))
+    return G, H
+
+
+def judge_cfg(case, obs):
+    """ranges that compute_missed and the heap rely on, on the library's own output"""
+    start, itv, lee, fl = case
+    clock, tg, dl, iv = obs
+    if not (1 <= iv <= I63):
+        return "interval %d outside [1, INT64_MAX]" % iv
+    if dl > I63:
+        return "deadline %d above INT64_MAX" % dl
+    if tg < I63:
+        if not (tg <= dl):
+            return "deadline %d before target %d" % (dl, tg)
+        if iv < I63 and dl - tg > iv // 2:
+            return "leeway %d above interval/2 (interval %d)" % (dl - tg, iv)
+        if not (1 <= tg < (1 << 62)):
+            return "armable target %d outside [1, 2^62)" % tg
+    return None
+
+
+def check_cfg(ctx, mexe, mism, fails, dist, samples):
+    exe, msg = common.build_harness("c11_cfg", ["c11_cfg.c"], whitebox=True, exclude_objs=("source.c.o",))
+    if exe is None:
+        mism.append({"what": "harness build failed (white-box include of src/source.c)", "detail": msg[-1500:]})
+        return 0
+    G, H = gen_cfg_cases(ctx.rng, 300 if ctx.tier == "quick" else 10000)
+    lines = ["G %d %d %d %d" % g for g in G] + ["H %d" % h for h in H]
+    r = common.run([exe], input="\n".join(lines) + "\n", timeout=600)
+    out = [l for l in r.stdout.split("\n") if l.strip()]
+    if r.returncode != 0 or len(out) != len(lines):
+        mism.append({"what": "harness run failed (config_create / dispatch_after)", "detail": {"rc": r.returncode, "lines": len(out), "err": (r.stderr or "")[-800:]}})
+        return 0
+    obs, clk = [], []
+    for l in out:
+        a, b = l.split("|")
+        obs.append([int(x) for x in a.split()])
+        c = [int(x) for x in b.split()]
+        clk.append((c[:3], c[3:]))
+    # model input: the clock readings bracket the ones made inside the call
+    mlines, plan = [], []
+    for g, o, (c1, c2) in zip(G, obs[:len(G)], clk[:len(G)]):
+        now = list(c1)     # up mono wall
+        x = o[0]
+        if c1[x] <= o[1] <= c2[x]:
+            now[x] = o[1]      # a NOW-relative start: the target IS the reading made inside the call
+        mlines.append("G %d %d %d %d %d %d %d" % (g[0], g[1], g[2], (g[3] >> 2) & 3, now[2], now[0], now[1]))
+    for h, (c1, c2) in zip(H, clk[len(G):]):
+        for c in (c1, c2):
+            mlines.append("H %d %d %d %d" % (h[0], c[2], c[0], c[1]))
+    m = common.run([mexe], input="\n".join(mlines) + "\n", timeout=600)
+    mout = [[int(x) for x in l.split()] for l in m.stdout.split("\n") if l.strip()]
+    if m.returncode != 0 or len(mout) != len(G) + 2 * len(H):
+        mism.append({"what": "model driver failed (config_create / dispatch_after)", "detail": (m.stderr or "")[-800:]})
+        return 0
+    kinds = {0: 0, 1: 0, 2: 0}
+    wrap = 0
+    for g, o, mo in zip(G, obs[:len(G)], mout[:len(G)]):
+        if o != mo:
+            mism.append({"what": "_dispatch_timer_config_create differs from Model/TimerRun.v config_create",
+                         "detail": {"start,interval,leeway,flags": list(g), "impl": o, "model": mo}})
+        w = judge_cfg(g, o)
+        if w:
+            fails.append({"key": "config:" + w.split()[0], "what": "_dispatch_timer_config_create(start=%d, interval=%d, leeway=%d, flags=%d) -> clock %d target %d deadline %d interval %d: %s"
+                          % (g + tuple(o) + (w,)), "kind": "cfg", "case": list(g)})
+    for i, (h, o) in enumerate(zip(H, obs[len(G):])):
+        r1, r2 = mout[len(G) + 2 * i], mout[len(G) + 2 * i + 1]
+        oo = o[:4] if o[0] == 2 else o[:1]
+        kinds[o[0]] += 1
+        ok = oo == r1 or oo == r2
+        if not ok and o[0] == 2 and r1[0] == 2 and r2[0] == 2 and o[1] == r1[1] and r1[1:3] == r2[1:3]:
+            if o[2] == r1[2]:
+                ok = min(r1[3], r2[3]) <= o[3] <= max(r1[3], r2[3])
+            elif o[1] == 2 and clk[len(G) + i][0][2] <= o[2] <= clk[len(G) + i][1][2]:
+                ok = True     # DISPATCH_WALLTIME_NOW read inside the call
+        if not ok:
+            mism.append({"what": "_dispatch_after differs from Model/TimerRun.v dispatch_after_model (evaluated at the clock readings before and after the call)",
+                         "detail": {"when": h[0], "impl": o, "model_before": r1, "model_after": r2}})
+        if o[0] == 2:
+            c, v = py_decode(h[0], o[2])
+            if o[4] != UINT64_MAX or not (o[5] & 0x40):
+                fails.append({"key": "after:one-shot", "what": "dispatch_after(when=%d): interval %d flags %d (must be a one-shot AFTER timer)" % (h[0], o[4], o[5]), "kind": "after", "when": h[0]})
+            if (o[1], o[2]) != (c, v):
+                fails.append({"key": "after:target", "what": "dispatch_after(when=%d): timer target %d on clock %d, `when` denotes %d on clock %d" % (h[0], o[2], o[1], v, c), "kind": "after", "when": h[0]})
+            if o[2] < I63 and not (o[2] + 10**6 <= o[3] <= o[2] + 60 * 10**9):
+                fails.append({"key": "after:leeway", "what": "dispatch_after(when=%d): deadline %d target %d: leeway outside [1ms, 60s]" % (h[0], o[3], o[2]), "kind": "after", "when": h[0]})
+            if o[2] >= I63:
+                wrap += 1
+    dist["config_create_cases"] = len(G)
+    dist["dispatch_after_cases"] = len(H)
+    dist["dispatch_after_kinds(dropped,async,timer)"] = [kinds[0], kinds[1], kinds[2]]
+    dist["dispatch_after_out_of_range_when"] = wrap
+    samples.append({"config_create": list(G[0]), "impl": obs[0]})
+    return len(G) + len(H)
+
+
+# ---------------------------------------------------------------------------------------------------------
 # state machine sequences (valid usage of the unote functions)
 
 ITVS = [1, 2, 3, 7, 10, 1000, I63 - 1, I63, UINT64_MAX]
@@ -349,7 +492,7 @@ def gen_tseq(rng, nt, length):
             continue
         after = st[t]["after"]
         if k < 30:
-            ahead = [m for m in marks if m[1] >= now and m[0] <= now + 300]
+            ahead = [m for m in marks if m[1] >= now and m[0] <= now + 300 and m[1] <= now + 1000]
             if ahead and rng.chance(2, 3):
                 m = rng.choice(ahead)      # exactly at the target, between target and deadline, at the deadline, one before
                 now = max(now, rng.choice([m[0], m[0] - 1, m[1], (m[0] + m[1]) // 2, m[0] + 1]))
@@ -364,6 +507,7 @@ def gen_tseq(rng, nt, length):
             lines.append("c %d %d %d %d %d" % (t, clock, tg, dl, itv))
             if rng.chance(1, 2):
                 lines.append("f %d" % t)
+                lines.append("S")
         elif k < 68 and not after:
             lines.append("s %d 1" % t)
         elif k < 78 and not after:
@@ -428,8 +572,15 @@ def judge_tseq(lines, out, nt):
     fails = []
     outs = iter(out)
     last_state = None
+    cfg, expect = {}, None
     for ln in lines:
         c = ln[0]
+        if c == "c":
+            a = [int(x) for x in ln[1:].split()]
+            cfg[a[0]] = a[2:5]
+        if c == "f":
+            t = int(ln[1:].split()[0])
+            expect = (t, cfg.get(t))
         if c not in "RPSl":
             continue
         o = next(outs)
@@ -437,6 +588,15 @@ def judge_tseq(lines, out, nt):
             continue
         if c == "S":
             last_state = parse_state(impl_line_to_list(o, nt), nt)
+            if expect and expect[1]:
+                t, (tg, dl, itv) = expect
+                tm = last_state[1][t - 1]
+                if list(tm[2:5]) != [tg, dl, itv] or tm[5] != 0 or tm[8] != 0:
+                    fails.append({"key": "configure-replaces", "what": "after _dispatch_timer_unote_configure of timer %d with the pending "
+                                  "configuration (target %d, deadline %d, interval %d) the timer has target %d deadline %d interval %d, "
+                                  "ds_pending_data %d (stale data of the replaced settings must be cleared), pending config %d"
+                                  % (t, tg, dl, itv, tm[2], tm[3], tm[4], tm[5], tm[8])})
+            expect = None
             continue
         args = [int(x) for x in ln[1:].split()]
         tidx, now = args
@@ -607,6 +767,36 @@ def correspond(ctx):
     dist["state_machine_fire_events"] = nfires
     dist["state_machine_kernel_arm_calls"] = narm
     dist["state_machine_kernel_delete_calls"] = ndel
+    # 4b. arithmetic of dispatch_source_set_timer / dispatch_after (src/source.c)
+    evals += check_cfg(ctx, mexe, mism, fails, dist, samples)
+    # 5. end-to-end oracle through the public API (real time; deadlines read back on the clock they were expressed in)
+    e2e, m5 = common.build_harness("c11_e2e", ["c11_e2e.c"], whitebox=False)
+    if e2e is None:
+        mism.append({"what": "end-to-end harness build failed", "detail": m5})
+    else:
+        runs = 3 if quick else 30
+        scale = 1 if quick else 2
+        tot = {"afters": 0, "timers": 0, "reconf": 0, "reconf_fired_with_new_settings": 0, "once": 0, "fired": 0}
+        for i in range(runs):
+            sd = rng.next() % (1 << 62)
+            r = common.run([e2e, str(sd), str(scale)], timeout=120)
+            summ = [l for l in r.stdout.split("\n") if l.startswith("SUMMARY")]
+            if not summ:
+                mism.append({"what": "end-to-end harness did not finish", "detail": {"seed": sd, "rc": r.returncode, "err": (r.stderr or "")[-500:]}})
+                continue
+            for kv in summ[0].split()[1:]:
+                k, v = kv.split("=")
+                if k in tot:
+                    tot[k] += int(v)
+            for l in r.stdout.split("\n"):
+                if l.startswith("FAIL"):
+                    kind = l.split()[1]
+                    fails.append({"key": "e2e:" + kind, "what": "public API, seed %d: %s" % (sd, l[5:]), "kind": "e2e", "seed": sd, "scale": scale})
+            evals += 1
+        dist["e2e_runs"] = runs
+        for k, v in tot.items():
+            dist["e2e_" + k] = v
+        samples.append({"e2e_summary": tot})
     # dedupe failures by key
     seen, uf = set(), []
     for f in fails:
@@ -620,7 +810,10 @@ def correspond(ctx):
                     "slot_addr; compute_missed on boundary-directed values; _dispatch_timers_run / _program / configure / resume / "
                     "unregister / latch on random life cycles with the fired events, kernel timer calls and full state compared; the "
                     "library's outputs are additionally judged in Python against the property (double heap shape, count = boundaries, "
-                    "never early, run fixpoint, programmed expiry = minimum)" % depth,
+                    "never early, run fixpoint, programmed expiry = minimum, configure replaces and clears pending data); "
+                    "second layer: public-API runs (dispatch_after, timer sources on uptime / monotonic / wall clocks, suspend-resume "
+                    "churn, set_timer while suspended / with a blocked target queue / from the handler) judged by reading the clock "
+                    "inside the handler against the deadline decoded from the dispatch_time_t, zero tolerance" % depth,
             "samples": samples, "distribution": dist, "mismatches": mism[:30], "failures": uf[:20]}
 
 
@@ -649,6 +842,10 @@ def replay(ctx, obj):
             r = common.run([exe], input="M %d %d %d %d %d\n" % tuple(f["case"]))
             li = [int(x) for x in r.stdout.split()]
             print("  now:", li, judge_missed(tuple(f["case"]), li))
+        elif f.get("kind") == "e2e":
+            e2e, m5 = common.build_harness("c11_e2e", ["c11_e2e.c"], whitebox=False)
+            r = common.run([e2e, str(f["seed"]), str(f.get("scale", 1))], timeout=120)
+            print("  now:", "\n       ".join(r.stdout.strip().split("\n")[:6]))
         elif f.get("kind") == "tseq":
             r = common.run([exe], input="\n".join(f["lines"]) + "\n")
             out = [l for l in r.stdout.split("\n") if l.strip()]
